@@ -257,3 +257,7 @@ def check(prog: Program, rep):
     rep.rule("C14.R3", "node-weighted mode: the walk handed out is the condensed internal walk (every second node, entry suffix, own-length strip)", floor=12)
     from rules.common import node_mode_plumbing
     node_mode_plumbing(prog, rep, "C14.R3")
+    rep.rule("C14.R4", "the walk handed out is not filtered away: remove-empty filters of the cyclic models decide emptiness on the internal walk (C01.R5)", floor=6)
+    from rules import ns as _ns
+    from rules.common import RuleProxy
+    _ns.arity_rule(prog, RuleProxy(rep, "C14.R4"), "C01.R5", only=("kFlowDecompCycles", "kLeastAbsErrorsCycles", "kMinPathErrorCycles"))
